@@ -96,6 +96,14 @@ pub fn apply(bytes: &[u8], sp: &[Span], mu: &Mutation, chunk: usize) -> Option<V
             b.truncate(s.off + 1);
             return Some(b);
         }
+        if let Some(x) = mu.m.strip_prefix("set:") {
+            let nv: u64 = x.parse().ok()?;
+            if nv == v || nv > maxv {
+                return None;
+            }
+            wr(&mut b, s.off, s.width, nv);
+            return Some(b);
+        }
         let nv = match mu.m.as_str() {
             "zero" => 0,
             "one" => 1,
